@@ -31,7 +31,8 @@ RULE = ("Hypothesis draws non-DAQmx source files biased to fragmentation (C01 ge
         'two); a copy written to a path with index_file=True is also read back by path (read and open) with the index '
         'defragment wrote.'
         ' Source lead-ins carry version numbers 4711 / 4712 / 4713 / 4714 / 0, the version argument may be omitted '
-        '(documented default 4712), destinations may be pathlib.Path objects.')
+        '(documented default 4712), destinations may be pathlib.Path objects.'
+        ' Long string channels (4095 .. 10000 values) are included.')
 ASSUMPTIONS = [
     "float-with-unit channels are compared as their float type (the writer API has no with-unit types)",
     "order of groups/channels in the copy is not asserted (the statement does not mention it)",
